@@ -58,4 +58,30 @@ EpsBarOk(m, leb, le2, leb2) ==
 \* eps0 is a power of two: le = k ln 2
 PowerOfTwo(le) == \E k \in -64..64 : Abs(1000 * le - k * Ln2x1000) <= 1000 * (3 + (Abs(k) \div 16))
 MuOk(mu, le) == mu - le >= Ln10Lo - 3 /\ mu - le <= Ln10Hi + 3
+
+(* ---- the start value eps0: Hoffman & Gelman's Algorithm 4 (doubling / halving heuristic) ----               *)
+(* A(e) is the log acceptance probability of ONE leapfrog step of size e from the start point with the first    *)
+(* momentum, an ExtReal record [k, v] in units of 2^-16.  A trial point whose density is undefined (NaN: `ln`   *)
+(* or `sqrt` of a negative argument) or zero (-inf) is never accepted: its acceptance probability is 0.          *)
+(* The heuristic starts at 1 and doubles while the acceptance is above 1/2, or halves while it is below 1/2     *)
+(* (a = +1 / -1, decided at step size 1); its postcondition is that the acceptance CROSSES 1/2 between the      *)
+(* returned eps0 and the candidate one doubling / halving earlier.                                              *)
+Acc(x) == IF x.k = "nan" THEN [k |-> "ninf", v |-> 0] ELSE x
+LnHalfFx16 == -45426
+LnQuarterFx16 == -90852
+AccAbove(x, t) == LET y == Acc(x) IN y.k = "pinf" \/ (y.k = "fin" /\ y.v > t)
+AccBelow(x, t) == LET y == Acc(x) IN y.k = "ninf" \/ (y.k = "fin" /\ y.v < t)
+\* went up: acceptance at eps0 is at most 1/2, and was still above 1/2 at eps0 / 2
+CrossUp(aEps, aHalf, sl) == ~AccAbove(aEps, LnHalfFx16 + sl) /\ AccAbove(aHalf, LnHalfFx16 - sl)
+\* went down: acceptance at eps0 is at least 1/2, and was still below 1/2 at 2 eps0.  (`skipped`: eps0 = 1/4 -- the
+\* implementation goes from its measurement at 1 straight to 1/4, step size 1/2 is never evaluated: DESIGN 7)
+CrossDown(aEps, aTwice, sl, skipped) == ~AccBelow(aEps, LnHalfFx16 - sl) /\ (AccBelow(aTwice, LnHalfFx16 + sl) \/ skipped)
+StartValueOk(aOne, aEps, aHalf, aTwice, lnEps, sl) ==
+  LET one == Acc(aOne)
+      skipped == lnEps.k = "fin" /\ lnEps.v >= LnQuarterFx16 - 1 /\ lnEps.v <= LnQuarterFx16 + 1
+  IN IF one.k = "pinf" \/ (one.k = "fin" /\ one.v > LnHalfFx16 + sl) THEN CrossUp(aEps, aHalf, sl)
+     ELSE IF one.k = "fin" /\ one.v < LnHalfFx16 - sl THEN CrossDown(aEps, aTwice, sl, skipped)
+     \* the unit step leaves the support (Algorithm 4 would halve; the implementation first looks for a finite trial
+     \* point in its own way), or sits on the threshold within the arithmetic's slack: a crossing in either direction
+     ELSE CrossUp(aEps, aHalf, sl) \/ CrossDown(aEps, aTwice, sl, skipped)
 =============================================================================
